@@ -95,15 +95,56 @@ def matchFlow : List Kind → List Kind → Nat → Bool
 def inLang (flows : List (List Kind)) (w : List Kind) : Bool :=
   flows.any (fun f => matchFlow f w 0)
 
-/-! ### DTLCP -/
+/-! ### DTLCP (datagram transport)
 
-/-- DTLCP client: HelloVerifyRequest (possibly retransmitted) may precede ServerHello. The
-bound on the number of cookie round trips is not part of the standard's flow; C08 checks the
-flows with 0, 1 and 2 of them. -/
-def dtlcpClientPrefixes : List (List Kind) := [[], [helloVerifyRequest], [helloVerifyRequest, helloVerifyRequest]]
+The flows are the same, preceded by the stateless cookie exchange: the server answers the first
+ClientHello (no cookie) with HelloVerifyRequest and starts the handshake on the second one; the
+client may see HelloVerifyRequest before ServerHello.
 
-/-- DTLCP server: the first ClientHello (no cookie) is answered by HelloVerifyRequest, the
-second one (with the cookie) starts the handshake. -/
-def dtlcpServer (flows : List (List Kind)) : List (List Kind) := flows.map (fun f => clientHello :: f)
+A datagram endpoint must tolerate *retransmission*: while it waits for the peer's next flight,
+a duplicate of the first message of the peer's previous flight is dropped, not fatal —
+HelloVerifyRequest while the client waits for ServerHello, ClientHello while the server waits
+for the handshake messages of the client's second flight (Certificate, ClientKeyExchange,
+CertificateVerify).  Once ChangeCipherSpec is due, nothing but it is acceptable.  So a position
+of a flow is a pair: the kind expected there, and the kinds ignored while waiting for it. -/
+
+abbrev Item := Kind × List Kind
+
+def plain (f : List Kind) : List Item := f.map (fun k => (k, []))
+
+/-- `matchItems`: `matchFlow` with per-position ignorable duplicates. An ignored duplicate is a
+handshake record: it restarts the count of warning alerts like any handshake message. -/
+def matchItems : List Item → List Kind → Nat → Bool
+  | [], [], _ => true
+  | [], _ :: _, _ => false
+  | _ :: _, [], _ => false
+  | (f, ign) :: fs, k :: ks, n =>
+    if k = warningAlert then
+      n + 1 ≤ maxIgnorable && matchItems ((f, ign) :: fs) ks (n + 1)
+    else if k = f then
+      matchItems fs ks (if k.isHandshake then 0 else n)
+    else if ign.contains k then
+      matchItems ((f, ign) :: fs) ks (if k.isHandshake then 0 else n)
+    else false
+
+def inLangI (flows : List (List Item)) (w : List Kind) : Bool :=
+  flows.any (fun f => matchItems f w 0)
+
+/-- DTLCP client: any number of HelloVerifyRequest before the ServerHello -/
+def dtlcpClient (flows : List (List Kind)) : List (List Item) :=
+  flows.map fun f => match f with
+    | sh :: rest => (sh, [helloVerifyRequest]) :: plain rest
+    | [] => []
+
+/-- a handshake message of the client's second flight -/
+def inSecondFlight (k : Kind) : Bool :=
+  k = certificate || k = certificateEmpty || k = clientKeyExchange || k = certificateVerify
+
+/-- DTLCP server: ClientHello (no cookie), ClientHello (cookie), then the TLCP flow, a
+retransmitted ClientHello being ignored while a message of the second flight is awaited -/
+def dtlcpServer (flows : List (List Kind)) : List (List Item) :=
+  flows.map fun f => match f with
+    | ch :: rest => (ch, []) :: (ch, []) :: rest.map (fun k => (k, if inSecondFlight k then [clientHello] else []))
+    | [] => []
 
 end Gotlcp.Spec.StandardFlow
